@@ -15,7 +15,12 @@ Two layers.
   `adv`; at a visited instant a pending check whose latency has elapsed completes with its
   result (`timeout` polls the check before its own deadline), otherwise it is timed out once
   `timeout` ms have elapsed since it was started. Each slot keeps the ghost history of its
-  completed outcomes; `Lemmas/Health` proves `core = runRes hist` for every reachable state.
+  completed outcomes; `Lemmas/Health` proves `core = runRes hist` for every reachable state,
+  `Lemmas/HealthLog` that `hist` is what the `check_done` / `check_drop` lines of the event log say and
+  that every probe line reports the fold of the check lines before it, `Lemmas/HealthFuel` that the
+  fuel of `quiesce` never runs out.
+* `SelectionStrategy::Random` (cargo feature `random`): `Strat.random draw`; in a run the draw is
+  recovered from the observed result of the selection (`stratFor`, `@pick=`), which must be eligible.
 -/
 namespace TR.Health
 
@@ -95,6 +100,7 @@ inductive Strat
   | rr                                      -- RoundRobin (shared counter)
   | prefer                                  -- PreferHealthy
   | custom (f : List St → Option Nat)       -- Custom(selector)
+  | random (draw : Nat)                     -- Random (feature `random`); the draw is the environment's
 
 /-- `iter().position(p)` -/
 def position (p : St → Bool) : List St → Option Nat
@@ -120,6 +126,10 @@ def select (strat : Strat) (sts : List St) (ctr : Nat) : Option Nat × Nat :=
        | some i => some i
        | none => position St.usable sts, ctr)
   | .custom f => (f sts, ctr)
+  | .random d =>
+      -- `usable[rand::rng().random_range(0..usable.len())]`: any draw, reduced into range; the counter is not used
+      let us := (availFrom St.usable 0 sts).map (·.1)
+      if us.isEmpty then (none, ctr) else (us[d % us.length]?, ctr)
 
 /-- `get_with_filter`: the resources are their own indices (`T = usize` in the harness) -/
 def getWith (p : St → Bool) (strat : Strat) (sts : List St) (ctr : Nat) : Option Nat × Nat :=
@@ -230,6 +240,7 @@ inductive HEv
   | details (r : Nat) (d : Option Ctx)
   | all (sts : List St)
   | got (healthyOnly : Bool) (res : Option Nat)
+  | notAllowed                               -- an observed random choice that no draw explains
   | noop
 deriving DecidableEq, Repr
 
@@ -249,8 +260,8 @@ inductive Op
   | status (r : Nat)
   | details (r : Nat)
   | all
-  | getHealthy
-  | getUsable
+  | getHealthy (pick : Option Nat)   -- `pick`: the observed result (only read under the Random strategy)
+  | getUsable (pick : Option Nat)
   | start                        -- `start()` (again)
   | stop                         -- `stop()`
   | config                       -- getters of the `HealthCheckConfig` value
@@ -363,6 +374,34 @@ def orphan (ps : List Pending) : List Pending := ps.map fun p => { p with cur :=
 
 def statuses (s : State) : List St := s.slots.map (·.core.status)
 
+/-- position of `i` in a list of resource indices -/
+def posOf (i : Nat) : List Nat → Option Nat
+  | [] => none
+  | a :: tl => if a = i then some 0 else (posOf i tl).map (· + 1)
+
+/-- the strategy one selection runs with. Every strategy but `Random` is the configured one. Under `Random` the
+draw is the environment's: it is recovered from the observed result — the position of the returned resource in
+the eligible list. A result that is not eligible (or "nothing" although resources are eligible) is explained by
+no draw: `none`. With nothing eligible no draw is made. -/
+def stratFor (strat : Strat) (p : St → Bool) (sts : List St) (pick : Option Nat) : Option Strat :=
+  match strat with
+  | .random _ =>
+      let ids := (availFrom p 0 sts).map (·.1)
+      if ids.isEmpty then some (.random 0)
+      else match pick with
+        | some i => (posOf i ids).map Strat.random
+        | none => none
+  | st => some st
+
+/-- `get_healthy` (`healthyOnly`) / `get_usable`: both go through the one `round_robin_counter` -/
+def doGet (cfg : Cfg) (s : State) (healthyOnly : Bool) (pick : Option Nat) : State :=
+  let p := if healthyOnly then St.isHealthy else St.usable
+  match stratFor cfg.strat p (statuses s) pick with
+  | some st =>
+      let (res, c) := getWith p st (statuses s) s.ctr
+      emit { s with ctr := c } [.got healthyOnly res]
+  | none => emit s [.notAllowed]
+
 def doOp (cfg : Cfg) (s : State) : Op → State
   | .adv ms _ => { s with now := s.now + ms }
   | .script r items =>
@@ -372,12 +411,8 @@ def doOp (cfg : Cfg) (s : State) : Op → State
   | .status r => emit s [.status r ((s.slots[r]?).map (·.core.status))]
   | .details r => emit s [.details r ((s.slots[r]?).map (·.core))]
   | .all => emit s [.all (statuses s)]
-  | .getHealthy =>
-      let (res, c) := getHealthy cfg.strat (statuses s) s.ctr
-      emit { s with ctr := c } [.got true res]
-  | .getUsable =>
-      let (res, c) := getUsable cfg.strat (statuses s) s.ctr
-      emit { s with ctr := c } [.got false res]
+  | .getHealthy pick => doGet cfg s true pick
+  | .getUsable pick => doGet cfg s false pick
   | .start => emit { s with phase := .spawned, pending := orphan s.pending } [.started]
   | .stop => emit { s with phase := .stopped, pending := orphan s.pending } [.stopped]
   | .config => emit s [match cfg.built with | some b => .config b | none => .noop]
@@ -449,6 +484,7 @@ def HEv.toEv : HEv → Ev
   | .all sts => .probe s!"all = {if sts.isEmpty then "-" else ",".intercalate (sts.map St.letter)}"
   | .got true res => .probe s!"get_healthy = {renderOptNat res}"
   | .got false res => .probe s!"get_usable = {renderOptNat res}"
+  | .notAllowed => .raw "choice-not-allowed"
   | .noop => .raw "noop"
 
 def parseItem (tok : String) : Option Item :=
@@ -464,6 +500,10 @@ def parseItem (tok : String) : Option Item :=
 
 def parseItems (s : String) : Option (List Item) :=
   (s.splitOn ",").mapM parseItem
+
+/-- `@pick=<resource>`: the result the implementation returned (observed choice; absent or `none`: nothing) -/
+def pickOf (ws : List String) : Option Nat :=
+  (ws.filterMap fun w => if w.startsWith "@pick=" then (w.drop 6).toString.toNat? else none).head?
 
 def parseOp (ws : List String) : Op :=
   match ws with
@@ -482,8 +522,8 @@ def parseOp (ws : List String) : Op :=
   | "probe" :: "details" :: rest =>
       match (parseKv rest).optNat "r" with | some r => .details r | none => .bad
   | "probe" :: "all" :: _ => .all
-  | "probe" :: "get_healthy" :: _ => .getHealthy
-  | "probe" :: "get_usable" :: _ => .getUsable
+  | "probe" :: "get_healthy" :: rest => .getHealthy (pickOf rest)
+  | "probe" :: "get_usable" :: rest => .getUsable (pickOf rest)
   | "probe" :: "config" :: _ => .config
   | "probe" :: "u8" :: rest =>
       match (parseKv rest).optNat "v" with | some v => .u8 v | none => .bad
@@ -504,6 +544,7 @@ def parseStrat (s : String) : Strat :=
   else if s = "oob" then .custom (fun sts => some sts.length)
   else if s = "none" then .custom (fun _ => none)
   else if s = "second" then .custom (fun _ => some 1)
+  else if s = "random" then .random 0
   else .first
 
 /-- `post=fth:3,to:7`: wrapper-builder setters called after `with_config` -/
